@@ -1,6 +1,138 @@
 /-
-  Property C01 — property theorems only (helper lemmas live next to the model).
-  Stub: nothing claimed yet.
+  Property C01 — bounded queue: each element delivered exactly once, FIFO, with exclusive, fully
+  published access.  Property theorems only; the model is Babylon/BQ/Model.lean, the invariant and
+  its preservation are in Babylon/BQ/{Attr,Summary,StepCases*,Inv*,Props}.lean, the abstract queue
+  specification other properties import is Babylon/BQ/Spec.lean.
+
+  All theorems quantify over `ReachF c y`: every state reachable from the initial state by any
+  interleaving of any number of threads running any client programs that respect the documented
+  contract (`Step.call`: pairing rules, CONCURRENT=false operations do not overlap others on their
+  side, 1 ≤ batch ≤ capacity), for every capacity `2^bits`, with the explicit hypothesis
+  `Ver16Faithful` on each step (`StepF`): the comparison of 16-bit truncated versions a thread is
+  about to make agrees with the comparison of the untruncated versions.  `bq_ver16_faithful`
+  discharges that hypothesis under a total-traffic bound.
 -/
+import Babylon.BQ.Props
+import Babylon.BQ.Skel
+import Babylon.BQ.Examples
+
 namespace Babylon.Properties.C01
+open Babylon.BQ Babylon.Core Babylon.Gen.BQ
+
+/-! ### generated obligations: the source is the one the model was written against -/
+theorem gen_skel_slotfutex :
+    skel_version = Skel.version ∧ skel_wait = Skel.wait ∧ skel_set_version = Skel.set_version ∧
+    skel_wakeup_waiters = Skel.wakeup_waiters ∧ skel_set_version_and_wakeup = Skel.set_version_and_wakeup ∧
+    skel_block_slow = Skel.block_slow ∧ skel_spin_slow = Skel.spin_slow := by decide
+theorem gen_skel_api :
+    skel_push = Skel.push ∧ skel_pop = Skel.pop ∧ skel_push_n = Skel.push_n ∧ skel_pop_n = Skel.pop_n ∧
+    skel_try_push_n = Skel.try_push_n ∧ skel_try_pop_n = Skel.try_pop_n ∧ skel_cpush_n = Skel.cpush_n ∧
+    skel_cpop_n = Skel.cpop_n ∧ skel_timed_pop_n = Skel.timed_pop_n ∧ skel_size = Skel.size := by decide
+theorem gen_skel_deal :
+    skel_deal = Skel.deal ∧ skel_try_deal = Skel.try_deal ∧ skel_deal_n = Skel.deal_n ∧
+    skel_deal_n_comp = Skel.deal_n_comp ∧ skel_try_deal_n = Skel.try_deal_n := by decide
+/-- memory orders handed to version() / wait / set_version / fences, in source order: the single path
+publishes with acquire load + release exchange/store, the batch paths with relaxed accesses bracketed by
+an acquire fence before and a release fence after the callback -/
+theorem gen_orders :
+    ords_deal = [.acq, .rel] ∧ ords_try_deal = [.rlx, .acq, .rlx, .rlx, .rlx, .rel] ∧
+    ords_deal_n = [.rlx, .acq, .rel, .rlx, .sc] ∧ ords_deal_n_comp = [.rlx, .rlx, .rlx, .acq, .rel, .rlx] ∧
+    ords_try_deal_n = [.rlx, .rlx, .rlx, .acq, .rel, .rlx, .sc] ∧ ords_timed_pop_n = [.rlx, .rlx] := by decide
+/-- layout of a slot, waiter-bit constants, version bump, capacity rounding, and the version arithmetic
+of the real `push_version_for_index` / `pop_version_for_index` sampled on real queues against the
+model's `expVer` (including the 16-bit wrap) -/
+theorem gen_constants :
+    sizeofFutex = 4 ∧ futexOff1 = 8 ∧ futexOff2 = 16 ∧ sizeofSlot1 = sizeofSlot2 ∧
+    waiterInc = 65536 ∧ waiterThreshold = 65535 ∧ versionBump = 1 ∧ versionBumpSites = 9 ∧
+    capOf0 = 1 ∧ capOf1 = 1 ∧ capOf3 = 4 ∧ capOf8 = 8 ∧
+    pushVer_c4_i13 = v16 (expVer { bits := 2 } .push 13) ∧ popVer_c4_i13 = v16 (expVer { bits := 2 } .pop 13) ∧
+    pushVer_c1_i5 = v16 (expVer { bits := 0 } .push 5) ∧ popVer_c8_i7 = v16 (expVer { bits := 3 } .pop 7) ∧
+    pushVer_c2_wrap = v16 (expVer { bits := 1 } .push (2 * 32768 + 1)) ∧
+    popVer_c2_wrap = v16 (expVer { bits := 1 } .pop (2 * 32767 + 1)) := by decide
+theorem gen_flags :
+    compFlags = [true, false, true, false] ∧ timedFlags = [true, false] ∧ defaultFlags = Skel.defaultFlags := by decide
+
+/-! ### the invariant -/
+/-- **bq_inv.**  In every reachable state: tickets below the dispensers are each held by at most one
+thread (`uniq`, `heldLt`); a slot's version says exactly which deals on it are complete (`doneGt`,
+`futLe`, `heldLt`); what a thread has observed stays true (`lbLe`); exclusive paths see the dispenser
+value they rely on (`expOk`); values follow tickets (`valRd`, `valWr`, `popPush`). -/
+theorem bq_inv (c : Cfg) (y : Sys) (h : ReachF c y) : Inv c y := inv_reach h
+
+/-- **bq_exclusive.**  No two threads are inside a callback on the same slot (single and batch ranges):
+while a producer or consumer callback runs it has exclusive access to its element. -/
+theorem bq_exclusive (c : Cfg) (y : Sys) (h : ReachF c y) (t u sl : Nat)
+    (ht : (y.s.pc t).inCb c sl) (hu : (y.s.pc u).inCb c sl) : t = u :=
+  exclusive_of_inv (inv_reach h) t u sl ht hu
+
+/-- a thread inside a callback on slot `sl` holds the unique ticket whose turn it is on that slot: the
+slot version equals the version that ticket waits for (nobody else can be admitted before it releases) -/
+theorem bq_callback_owns_turn (c : Cfg) (y : Sys) (h : ReachF c y) (t sl : Nat) (ht : (y.s.pc t).inCb c sl) :
+    ∃ sd i, (y.s.pc t).held sd i ∧ slotOf c i = sl ∧ y.s.ver sl = expVer c sd i := by
+  have hI := inv_reach h
+  obtain ⟨sd, i, h1, h2, h3⟩ := inCb_crit c _ (hI.wf t) sl ht
+  exact ⟨sd, i, h1, h2, by rw [← h2]; exact hI.crit t sd i h1 (by rw [h2]; exact h3)⟩
+
+/-- **bq_value.**  The value a pop callback of ticket `i` read is the value the push callback of ticket
+`i` wrote. -/
+theorem bq_value (c : Cfg) (y : Sys) (h : ReachF c y) (i v : Nat) (hp : y.s.poppedV i = some v) :
+    y.s.pushedV i = some v := (inv_reach h).popPush i v hp
+
+/-- **bq_no_dup_no_invent.**  Always: the values handed to consumers, listed by ticket, form a sublist of
+the values handed in by producers listed by ticket (each ticket is popped at most once — it is one entry of
+the list — and only with the value pushed under it), and no value exists for a ticket that was not issued. -/
+theorem bq_no_dup_no_invent (c : Cfg) (y : Sys) (h : ReachF c y) (n : Nat) :
+    List.Sublist (poppedUpTo y.s n) (pushedUpTo y.s n) ∧
+    (∀ i, y.s.pushedV i ≠ none → i < y.s.pushIdx) ∧ (∀ i, y.s.poppedV i ≠ none → i < y.s.popIdx) :=
+  ⟨popped_sublist_pushed (inv_reach h) n, (inv_reach h).ghostLt .push, (inv_reach h).ghostLt .pop⟩
+
+/-- **bq_conserve.**  At quiescence with as many tickets popped as pushed, the list of popped values equals
+the list of pushed values *in ticket order* (hence as multisets): nothing lost, duplicated or invented. -/
+theorem bq_conserve (c : Cfg) (y : Sys) (h : ReachF c y) (hq : Quiescent y) (hbal : y.s.pushIdx = y.s.popIdx) :
+    poppedUpTo y.s y.s.popIdx = pushedUpTo y.s y.s.pushIdx ∧ (poppedUpTo y.s y.s.popIdx).length = y.s.popIdx :=
+  conserve_of_quiescent (inv_reach h) hq hbal
+
+/-- every issued ticket whose callback finished has its value recorded; in particular at quiescence every
+issued ticket has been served -/
+theorem bq_all_served (c : Cfg) (y : Sys) (h : ReachF c y) (hq : Quiescent y) (sd : Side) (i : Nat)
+    (hi : i < y.s.idx sd) : y.s.ghostV sd i ≠ none := ghost_total_of_quiescent (inv_reach h) hq sd i hi
+
+/-- **bq_fifo.**  Ticket order respects real-time order: if ticket `a` had been issued when thread `t` was
+idle (in particular if the operation that took `a` had returned), every ticket a later call of `t` takes on
+that side is larger.  With `bq_value` (popped value of ticket `i` = pushed value of ticket `i`) this is the
+FIFO clause: a value pushed by an operation that returned before another push began has the smaller ticket,
+and ordered pops take increasing tickets, so it is never popped after the later value by ordered pops. -/
+theorem bq_fifo (c : Cfg) (y y' : Sys) (hy : ReachF c y) (t : Nat) (sd : Side) (a b : Nat)
+    (ha : a < y.s.idx sd) (hidle : y.s.pc t = .idle)
+    (hlater : Reachable (· = y) (StepF c) y') (hb : (y'.s.pc t).held sd b) : a < b :=
+  fifo_tickets hy t sd a b ha hidle hlater hb
+
+/-- tickets a call takes are never below the dispenser value at the moment the call began -/
+theorem bq_ticket_ge_start (c : Cfg) (y : Sys) (h : ReachF c y) (t : Nat) (sd : Side) (i : Nat)
+    (hh : (y.s.pc t).held sd i) : y.start t sd ≤ i ∧ i < y.s.idx sd :=
+  ⟨(inv_reach h).heldGe t sd i hh, ((inv_reach h).heldLt t sd i hh).1⟩
+
+/-- **bq_ver16_faithful** (total-traffic form).  While every slot version and every version a thread is
+about to compare against is below 2^16 (fewer than 2^15 rounds of the ring have been dealt), comparing the
+16-bit truncations is comparing the untruncated versions, i.e. the hypothesis of `StepF` holds.
+The sharper window form — `OutstandingBound`: all simultaneously live tickets and all indices still held in
+locals of in-flight try_ calls lie within 2^15·capacity of each other — is *not* proved here and is what
+`StepF` assumes explicitly; it cannot be dropped: with 2^15·capacity tickets outstanding the truncated
+version of a slot repeats and a stalled thread would be admitted one lap early. -/
+theorem bq_ver16_faithful (c : Cfg) (s : State) (hv : ∀ sl, s.ver sl < 65536)
+    (hE : ∀ t sl E, (s.pc t).cmp c = some (sl, E) → E < 65536) : ∀ t, Faithful c s t :=
+  faithful_of_small c s hv hE
+
+/-- the low half of the futex word the code loads is the truncation of the model's untruncated version -/
+theorem bq_word_low16 (s : State) (j : Nat) : v16 (s.word j) = v16 (s.ver j) := v16_word s j
+
+/-! ### non-vacuity: the hypotheses are satisfiable by concrete non-trivial states (capacity 2) -/
+/-- a reachable state in which thread 1 holds push ticket 0 (hypotheses of `bq_ticket_ge_start`, `bq_fifo`) -/
+example : ∃ y t, ReachF exCfg y ∧ (y.s.pc t).held .push 0 := ⟨ex2, 1, ex2_reach, rfl, rfl⟩
+/-- a reachable state in which thread 1 is inside its push callback on slot 0 (hypotheses of `bq_exclusive`) -/
+example : ∃ y t, ReachF exCfg y ∧ (y.s.pc t).inCb exCfg 0 := ⟨ex4, 1, ex4_reach, rfl⟩
+/-- the initial state is quiescent and balanced (hypotheses of `bq_conserve`) -/
+example : ReachF exCfg Sys.init ∧ Quiescent Sys.init ∧ Sys.init.s.pushIdx = Sys.init.s.popIdx :=
+  ⟨Reachable.base rfl, fun _ => rfl, rfl⟩
+
 end Babylon.Properties.C01
